@@ -220,7 +220,22 @@ func c01History(r *report.R, id string) {
 		r.Count("blocks_compared", len(tr))
 		r.Count("blocks_with_differing_events(recorded only)", evDiff)
 		if what != "" {
-			r.Violation(id, "divergence|"+field, fmt.Sprintf("follower %d (knobs %s) diverges from the leader: %s", fi, k, what), map[string]any{"cfg": h, "knobs": k})
+			sig := "divergence|" + field
+			// diagnosis of one known cause: the follower lost an IBC channel capability (the
+			// transaction fails with channel error 9 on it only) and agrees with the leader again
+			// when the very same schedule is replayed with the Simulate calls left out
+			if p, q, ok := firstTxDiff(leader, tr); ok && k.Schedule != 0 && p.Code == 0 && q.Code == 9 && q.Codespace == "channel" {
+				k2 := k
+				k2.NoSimulate = true
+				fw2 := filepath.Join(work, fmt.Sprintf("f%d-nosim", fi))
+				_ = os.MkdirAll(fw2, 0o755)
+				if tr2, _, err2 := spawnFollower(r, hp, k2, fw2, false); err2 == nil {
+					if w2, _, _ := compareTraces(leader, tr2); w2 == "" {
+						sig = "divergence|tx-result.code|ibc-channel-capability-lost|only-with-Simulate-calls-between-the-DeliverTx-calls-of-a-block"
+					}
+				}
+			}
+			r.Violation(id, sig, fmt.Sprintf("follower %d (knobs %s) diverges from the leader: %s", fi, k, what), map[string]any{"cfg": h, "knobs": k})
 			continue
 		}
 		if families >= 6 && constructs >= 1 {
